@@ -193,7 +193,8 @@ def handle (c : Case) : Verdict :=
               | some es => if linksSafe nL nR sends && !wmSafeOk es then ["[C06] zip output violates watermark safety"] else []
               | none => []
             let f05 := match elems with
-              | some es => if !grammarOk es then ["[C05] zip output violates the stream grammar"] else []
+              -- (an input without any iteration — only `Terminate`s — is itself outside the grammar)
+              | some es => if !its.isEmpty && !grammarOk es then ["[C05] zip output violates the stream grammar"] else []
               | none => []
             let all := f09 ++ f06 ++ f05
             if all.isEmpty then none else some (" ;; ".intercalate all)
